@@ -1,6 +1,10 @@
 """C19, line level (audit round 7, items C5 / C4): replays on the real FileLogger with a line-based oracle,
 compared with the Lean model under the COMMITTED shapes (Cfg.oneWrite = fix F46 = /repo 85f4c48, Cfg.sealsTail = fix
 F47 = /repo efaf20c: both `true`; the probes on the real router()/updateFile() must say so too - audit B12).
+Round 11 (F47b): `sealTornTail` may have one of exactly two shapes - committed (a failed READ of the last byte is an
+error = exit; Cfg.sealReadWarns = false) or the proposed follow-up F47b (warning, append unsealed; true). Which one is
+read off the regenerated skeleton (`seal_read_warns_from_gen`, = Nsq.Tie.ToolsToFile.sealReadWarns), the model is replayed
+with it, and the probe on the real updateFile() (`vfE8ProbeSealReadWarns`) must agree.
 Harness: harness/e8/tofile_lines_test.go. Theorems: Nsq.Props.C19Lines."""
 import os
 import re
@@ -17,20 +21,50 @@ def shapes_from_gen():
         txt = open(os.path.join(fw.LEAN, "Nsq", "Gen", "ToolsToFile.lean")).read()
     except OSError:
         return None
-    return {"one_write": '"..._, err := f.Write(record)"' in txt, "seals_tail": "f.sealTornTail(absFilename)" in txt}
+    return {"one_write": '"..._, err := f.Write(record)"' in txt, "seals_tail": "f.sealTornTail(absFilename)" in txt,
+            "seal_read_warns": seal_read_warns_from_gen(txt)}
 
 
-def committed_shape_ops(src, dst):
-    """`tf conf … <closeClears> <oneWrite> <sealsTail>`: the harness writes what it PROBED on the real code; the model is run
-    with the committed values oneWrite = sealsTail = 1 (F46, F47), so a tree that reverts one of them disagrees with the
-    model line by line. closeClears (fix F44, NOT committed: a proposal) stays as probed. Returns the probed pairs seen."""
+SEAL_COMMITTED = ['r, err := os.Open(name)', 'if err != nil', '.return err', 'defer r.Close()', 'last := make([]byte, 1)',
+                  '_, err = r.ReadAt(last, f.filesize-1)', 'if err != nil', '.return err', "if last[0] == '\\\\n'", '.return nil',
+                  'n, err := f.out.Write([]byte(\\"\\\\n\\"))', 'f.filesize += int64(n)', 'return err']
+
+
+def seal_read_warns_from_gen(txt=None):
+    """0 = the regenerated skeleton of sealTornTail is the committed one (/repo efaf20c), 1 = the one of F47b (the two READ
+    failures `return nil`), None = neither (then Tie.ToolsToFile.updateFile_eq fails too)"""
+    if txt is None:
+        try:
+            txt = open(os.path.join(fw.LEAN, "Nsq", "Gen", "ToolsToFile.lean")).read()
+        except OSError:
+            return None
+    m = re.search(r"def sealTornTail : List String := \[\n(.*?)\]\n", txt, re.S)
+    if not m:
+        return None
+    got = [l.strip().rstrip(",")[1:-1] for l in m.group(1).splitlines() if l.strip()]
+    warns = list(SEAL_COMMITTED)
+    warns[2] = warns[7] = ".return nil"
+    return 0 if got == SEAL_COMMITTED else 1 if got == warns else None
+
+
+def committed_shape_ops(src, dst, srw_seen=None):
+    """`tf conf … <closeClears> <oneWrite> <sealsTail> [<sealReadWarns>]`: the harness writes what it PROBED on the real code;
+    the model is run with the committed values oneWrite = sealsTail = 1 (F46, F47), so a tree that reverts one of them
+    disagrees with the model line by line, and (round 11) with sealReadWarns = the shape of the REGENERATED skeleton of
+    sealTornTail (0 committed / 1 F47b; neither: 0). closeClears (fix F44, NOT committed: a proposal) stays as probed.
+    Returns the probed (oneWrite, sealsTail) pairs seen; the probed sealReadWarns values go to `srw_seen`."""
     seen = set()
+    srw = seal_read_warns_from_gen()
     with open(dst, "w") as fh:
         for o in open(src).read().splitlines():
             w = o.split(" ")
             if len(w) >= 12 and w[0] == "tf" and w[1] == "conf":
                 seen.add((w[10], w[11]))
                 w[10], w[11] = "1", "1"
+                if len(w) >= 13:
+                    if srw_seen is not None:
+                        srw_seen.add(w[12])
+                    w[12] = "1" if srw == 1 else "0"
                 o = " ".join(w)
             fh.write(o + "\n")
     return seen
@@ -45,10 +79,17 @@ def lines_leg(ctx, parent, corr_broken):
         ctx.log("lines harness failed:\n" + log[-1500:])
         corr_broken.append("lines harness exit %s" % rc)
         return
-    mp = re.search(r"LINESPROBE one_write=(\d) seals_tail=(\d)", log)
+    mp = re.search(r"LINESPROBE one_write=(\d) seals_tail=(\d) seal_read_warns=(-?\d) inject=(\S+)", log)
     one_write, seals = (mp.group(1) == "1", mp.group(2) == "1") if mp else (False, False)
+    srw_probe, inject = (int(mp.group(3)), mp.group(4)) if mp else (-1, "?")
     gen = shapes_from_gen()
-    ctx.corr["lines_probe"] = {"one_write": one_write, "seals_tail": seals, "regenerated_skeleton": gen}
+    srw = gen["seal_read_warns"] if gen else None
+    shape = {0: "committed F47 (/repo efaf20c): a failed read of the last byte is fatal", 1: "F47b: a failed read is a warning, the file is appended to unsealed"}.get(srw, "unknown")
+    ctx.corr["lines_probe"] = {"one_write": one_write, "seals_tail": seals, "seal_read_warns": srw_probe, "unreadable_file_injected_by": inject,
+                               "regenerated_skeleton": gen, "sealTornTail_shape": shape}
+    if srw is None or srw_probe != srw:
+        corr_broken.append("sealTornTail on an unreadable file: probe on the real updateFile() says %s (%s), regenerated skeleton says %s; "
+                           "accepted: committed F47 (0) or F47b (1), probe = skeleton" % (srw_probe, inject, srw))
     if gen is None or not (gen["one_write"] and gen["seals_tail"] and one_write and seals):
         corr_broken.append("line-level shapes: probe on the real router()/updateFile() (one_write=%s seals_tail=%s), regenerated "
                            "skeleton (%s); expected one_write = seals_tail = true everywhere (F46 85f4c48, F47 efaf20c)"
@@ -73,9 +114,43 @@ def lines_leg(ctx, parent, corr_broken):
         ctx.count_case("lines|" + r["case"] + "|" + r["owns"] + "|" + r["tree"], nontrivial=True)
         fins = _unhex(r["fins"]).decode("latin1")
         missing = _unhex(r["missing"]).decode("latin1")
+        notes = _unhex(r["notes"]).decode("latin1").split(",")
         if r["complete"] != "true" or "hang" in r["exits"] or "start-error" in r["exits"]:
             corr_broken.append("lines scenario %s did not complete (exits %s)" % (r["case"], r["exits"]))
             continue
+        # ---- round 11 (F47b): the existing file is write-only for the tool ----
+        unreadable = "unreadable=true" in notes
+        if r["case"].startswith("unreadable-") and not unreadable:
+            corr_broken.append("lines scenario %s: the file could not be made unreadable for the tool (%s)" % (r["case"], inject))
+            continue
+        if "unreadable-not-injected" in notes:
+            corr_broken.append("lines scenario %s: the file could not be made unreadable for the tool (%s)" % (r["case"], inject))
+        if unreadable:
+            nonempty = r["case"] != "unreadable-empty" and "prelen=0" not in notes
+            torn = r["case"] == "unreadable-torn" or "torn=true" in notes
+            row = {"case": r["case"], "shape": srw, "exits": r["exits"], "fins": fins, "without_own_line": missing, "tree": r["tree"],
+                   "warned": "log-WARNING" in notes, "fatal_logged": "log-FATAL" in notes}
+            ctx.corr.setdefault("unreadable_file", []).append(row)
+            died = r["exits"] == "1" and any(n.startswith("fatal-in=") for n in notes)
+            if srw == 0:
+                # committed F47: the read of the last byte of a non-empty file fails -> FATAL, exit 1 in the first event, nothing FINished
+                want = (died and fins == "" and ("log-FATAL" in notes or r["case"].startswith("gen-"))) if nonempty else (r["exits"] == "0" and r["owns"] == "true")
+                row["verdict"] = "fatal exit before any FIN (fin_owns_line_committed has nothing to excuse)" if nonempty else "empty file: not read, appended to"
+                if not want:
+                    corr_broken.append("lines scenario %s on the committed shape of sealTornTail: expected %s, got exits=%s fins=%r notes=%s"
+                                       % (r["case"], "FATAL + exit 1 + no FIN" if nonempty else "a normal run", r["exits"], fins, notes))
+            elif srw == 1:
+                if r["exits"] != "0" or (nonempty and "log-WARNING" not in notes and not r["case"].startswith("gen-")):
+                    corr_broken.append("lines scenario %s on the F47b shape of sealTornTail: expected a WARN and a normal run, got exits=%s notes=%s"
+                                       % (r["case"], r["exits"], notes))
+                if torn and r["owns"] != "true":
+                    # NOT a violation of what is claimed for this tree: fin_owns_line_this_tree carries ReadsOk on the F47b shape
+                    row["verdict"] = ("witnessed hypothesis boundary: the torn tail of a file the tool cannot read is appended to "
+                                      "(Lean: Props.C19Lines.unreadable_torn_file_witness, fin_owns_line_F47b_full_false); the claim for "
+                                      "this tree carries `every existing file the tool appends to is readable by it`")
+                    ctx.corr["hypothesis_boundary_ReadsOk_witnessed"] = ctx.corr.get("hypothesis_boundary_ReadsOk_witnessed", 0) + 1
+                    continue
+                row["verdict"] = "appended unsealed behind an empty / newline-terminated file: every FINished message owns its line (fin_owns_line_unreadable_partial)"
         if r["owns"] == "true":
             continue
         replay = "scenario=%s (harness/e8/tofile_lines_test.go, TestVerifToFileLines)\nfinished=%s\nwithout an own line=%s\ntree=%s\n" % (
@@ -85,6 +160,9 @@ def lines_leg(ctx, parent, corr_broken):
             what = ("nsq_to_file: two topics with a --filename-format without <TOPIC> append to one plain file (O_APPEND); router 1 was "
                     "between Write(body) and Write(\"\\n\") when router 2 appended its record: FINished message(s) %s are not a line of "
                     "the file (Lean: Props.C19Lines.shared_file_unfixed_witness; with fix F46 shared_file_lines_fixed)" % missing)
+        elif r["case"] == "unreadable-clean" or r["case"] == "unreadable-empty":
+            key = "lines-append-to-unreadable-terminated-file"
+            what = "nsq_to_file: message(s) %s FINished but not a line of any file after appending to a write-only file that is empty / newline-terminated" % missing
         elif r["case"].startswith("gen-") and "torn=true" not in _unhex(r["notes"]).decode("latin1"):
             key = "lines-generated-append"
             what = ("nsq_to_file: generated plain-append script (initial file absent / empty / newline-terminated): FINished message(s) %r "
@@ -97,10 +175,14 @@ def lines_leg(ctx, parent, corr_broken):
             what = ("nsq_to_file: an existing plain file that ends inside a record (writer killed between Write(body) and Write(\"\\n\"), "
                     "or a short write) is re-opened with O_APPEND and the next record is appended to the torn tail: FINished message(s) %s "
                     "are not a line of any file (Lean: Props.C19Lines.fin_owns_line_full_false; with fix F47 fin_owns_line_fixed)" % missing)
+            if unreadable:
+                what += (" [the file is write-only for the tool and the regenerated sealTornTail has %s: no readability hypothesis excuses this]"
+                         % ("the committed shape" if srw == 0 else "neither accepted shape"))
         ctx.violation(key, what, replay)
     ctx.corr["lines"] = rows
-    if len([r for r in rows if not r["case"].startswith("gen-")]) < 7:
-        corr_broken.append("lines leg: only %d of 7 fixed scenarios reported" % len(rows))
+    if len([r for r in rows if not r["case"].startswith("gen-")]) < 10:
+        corr_broken.append("lines leg: only %d of 10 fixed scenarios reported" % len(rows))
     gen = [r for r in rows if r["case"].startswith("gen-")]
     ctx.corr["lines_generated"] = {"scripts": len(gen), "torn_initial_file": sum(1 for r in gen if "torn=true" in _unhex(r["notes"]).decode("latin1")),
-                                   "without_own_record": sum(1 for r in gen if r["owns"] != "true")}
+                                   "without_own_record": sum(1 for r in gen if r["owns"] != "true"),
+                                   "unreadable_initial_file": sum(1 for r in gen if "unreadable=true" in _unhex(r["notes"]).decode("latin1"))}
